@@ -16,3 +16,6 @@ var ErrNilUint64ByteSliceConverter = errors.New("nil Uint64ByteSliceConverter")
 
 // ErrNilApiTransactionResult signals that a nil api transaction result has been provided
 var ErrNiStorageService = errors.New("nil StorageService")
+
+// ErrInvalidChainID signals that the chain ID of a transaction can not be used for signing (not valid UTF-8)
+var ErrInvalidChainID = errors.New("invalid chain ID")
